@@ -41,6 +41,26 @@ struct Ver {
    n: INone,
 }
 
+/// `is_empty()` of every read view, in the order f, i0, i1, i2, i01, i02, i12, n (2 = the call panicked)
+fn empties(v: &Ver) -> Vec<i64> {
+   fn flag(f: impl FnOnce() -> bool) -> i64 {
+      match std::panic::catch_unwind(std::panic::AssertUnwindSafe(f)) {
+         Ok(b) => b as i64,
+         Err(_) => 2,
+      }
+   }
+   vec![
+      flag(|| RelIndexRead::is_empty(&v.f.to_rel_index(&v.c))),
+      flag(|| RelIndexRead::is_empty(&v.i0.to_rel_index(&v.c))),
+      flag(|| RelIndexRead::is_empty(&v.i1.to_rel_index(&v.c))),
+      flag(|| RelIndexRead::is_empty(&v.i2.to_rel_index(&v.c))),
+      flag(|| RelIndexRead::is_empty(&v.i01.to_rel_index(&v.c))),
+      flag(|| RelIndexRead::is_empty(&v.i02.to_rel_index(&v.c))),
+      flag(|| RelIndexRead::is_empty(&v.i12.to_rel_index(&v.c))),
+      flag(|| RelIndexRead::is_empty(&v.n.to_rel_index(&v.c))),
+   ]
+}
+
 /// one view: its numbers, or -1 in every slot when reading it panics
 fn view(slots: usize, out: &mut Vec<i64>, f: impl FnOnce(&mut Vec<i64>)) {
    let mut part: Vec<i64> = vec![];
@@ -304,7 +324,7 @@ pub fn run(dom: u32, nk: u32, ops: &[&str], steps: &mut Vec<String>) {
                "M" => merge_common(&mut s),
                _ => restart(&mut s),
             }
-            steps.push(format!("D {} T {}", join(&dump(&s.delta, dom, nk)), join(&dump(&s.total, dom, nk))));
+            steps.push(format!("D {} T {} E {} {}", join(&dump(&s.delta, dom, nk)), join(&dump(&s.total, dom, nk)), join(&empties(&s.delta)), join(&empties(&s.total))));
          },
          _ => panic!("bad op {}", op),
       }
